@@ -40,11 +40,14 @@ of BYMONTH, with a time that is enumerated and not skipped: it ends with `x` wri
 theorem wlyLoop_complete (c : WlyCtx) (hr : WfRule c.r) (hp : WfInst c.proto) (he : EnumOk c.e)
     (hinc : nibOk 8 c.wdIncs 6 = true) (x : Inst) (o : Nat) (ho : o ∈ offs 8 c.wdIncs 0) (hxy : x.y ≤ 2099)
     (hxms : x.ms = c.proto.ms) (ix : Nat × Nat × Nat) (hxt : (ix, x.H, x.M, x.S) ∈ c.e.timesIx)
-    (hxs : ∀ y m d, VD y m d → Carry y m (d + o) x.y x.m x.d →
+    (R : Nat → Nat → Nat → Prop)
+    (hR : ∀ y m d y2 m2 d2, R y m d → Carry y m (d + wk c) y2 m2 d2 → R y2 m2 d2)
+    (hxs : ∀ y m d, R y m d → VD y m d → Carry y m (d + o) x.y x.m x.d →
       wlySkip c (wlyNset c m d (getNdom y m)) (ndAt c y m (offs 8 c.wdIncs d) (d + o)) ix = false)
     (hmon : bit c.mMask x.m = true)
     (hge : ltP x c.proto = false) (hle : ltP c.r.untl x = false) :
-    ∀ (fuel i y m d : Nat) (res l : List Inst), VD y m d → LowOk y m → Carry y m (d + i * wk c + o) x.y x.m x.d →
+    ∀ (fuel i y m d : Nat) (res l : List Inst), R y m d → VD y m d → LowOk y m →
+      Carry y m (d + i * wk c + o) x.y x.m x.d →
       Acc c.r c.proto c.nti res → Below res y m d → wlyLoop c fuel y m d (getNdom y m) res = some l →
       x ∈ l ∨ (l.length = c.nti ∧ ∀ z ∈ l, ikey z < ikey x) := by
   have hi := hr.inter
@@ -52,9 +55,9 @@ theorem wlyLoop_complete (c : WlyCtx) (hr : WfRule c.r) (hp : WfInst c.proto) (h
   have hxk : dkey x.y x.m x.d * 4194304 ≤ ikey x := by unfold ikey; omega
   intro fuel
   induction fuel with
-  | zero => intro i y m d res l _ _ _ _ _ h; cases h
+  | zero => intro i y m d res l _ _ _ _ _ _ h; cases h
   | succ f ih =>
-    intro i y m d res l hv hl hxc hacc hbel h
+    intro i y m d res l hRb hv hl hxc hacc hbel h
     have hd1 := hv.2.2.1
     have hd31 := hv.d31
     have hm12 := hv.2.1
@@ -81,7 +84,7 @@ theorem wlyLoop_complete (c : WlyCtx) (hr : WfRule c.r) (hp : WfInst c.proto) (h
           intro out hw
           exact wlyWeek_complete c hp he _ hv hy x (d + o) hxc hxy hxms ix hxt hmon hge hle 8 c.wdIncs d y m d 0
             res 6 out hinc (by omega) (Nat.le_refl _) (Carry.done hv.2.2.2) (offs_shift_mem ho)
-            (by rw [Nat.zero_add]; exact hxs y m d hv hxc) hacc (hbel.mono (by omega)) hw
+            (by rw [Nat.zero_add]; exact hxs y m d hRb hv hxc) hacc (hbel.mono (by omega)) hw
         split at h
         · cases h
         · rename_i res1 hw
@@ -141,7 +144,7 @@ theorem wlyLoop_complete (c : WlyCtx) (hr : WfRule c.r) (hp : WfInst c.proto) (h
               have e : d + wk c + (i' * wk c + o) = d + (i' * wk c + wk c) + o := by omega
               rw [e]; exact hxc
             rw [← Nat.add_assoc] at hxc2
-            exact ih i' y2 m2 d2 res1 l hv2 (lowOk_carry hc2 hv.1 hv.2.1 (by omega) hl) hxc2 hacc1
+            exact ih i' y2 m2 d2 res1 l (hR _ _ _ _ _ _ hRb hc2) hv2 (lowOk_carry hc2 hv.1 hv.2.1 (by omega) hl) hxc2 hacc1
               ((hbel1.mono (by omega)).rebase hc2) h
     · rw [if_pos (by omega)] at h
       cases h
